@@ -1318,9 +1318,7 @@ class Table(Vector):
 				for offset, col in enumerate(right_cols):
 					append_cols[base + offset](col[right_idx])
 		
-		# Handle empty result
-		if all(len(col) == 0 for col in result_data):
-			return Table(())
+		# (an empty result is a table with zero rows that still has every column, under its name)
 		
 		# ------------------------------------------------------------------
 		# 5. Wrap result_data in Vectors
@@ -1459,10 +1457,6 @@ class Table(Vector):
 				base = n_left_cols
 				for offset in range(n_right_cols):
 					result_append_cols[base + offset](None)
-		
-		# Handle completely empty result
-		if left_nrows == 0:
-			return Table(())
 		
 		# Wrap result_data into Vectors, preserving column names
 		result_cols = []
@@ -1629,12 +1623,6 @@ class Table(Vector):
 				base = n_left_cols
 				for offset, col in enumerate(right_cols):
 					append_cols[base + offset](col[right_idx])
-		
-		# ------------------------------------------------------------------
-		# 7. If empty, return empty table
-		# ------------------------------------------------------------------
-		if left_nrows == 0 and right_nrows == 0:
-			return Table(())
 		
 		# ------------------------------------------------------------------
 		# 8. Wrap into Vectors with names preserved
